@@ -952,6 +952,11 @@ func (e *Env) call(n *SCall) *Val {
 		for i := range n.Args {
 			as = append(as, arg(i).S)
 		}
+		if e.err != nil {
+			// an argument could not be evaluated: nothing may be assumed about the
+			// (ill-formed) application
+			return &Val{T: uf.ResT, Srt: uf.ResSort, S: "false"}
+		}
 		vc.u.declareUninterp(uf.Name, uf.ArgSorts, uf.ResSort)
 		s := "(" + uf.Name + " " + strings.Join(as, " ") + ")"
 		if len(as) == 0 {
